@@ -1,7 +1,7 @@
 """C06 - a value edit discards exactly its dependents; inputs persist (evaluator's dependency relation as oracle)."""
 from .base import PropBase, Violation
 from .. import machine, gen, grammar, probe, refmodel as rm, history
-from ..world import norm
+from ..world import norm, left_executing
 from . import c02, c01
 import modelx as mx
 
@@ -227,7 +227,7 @@ class C06(PropBase):
                         if r[0] == "unknown":
                             raise_giveup(self)
         sysm = mx.core.mxsys
-        if sysm.callstack or sysm.executor.is_executing:
+        if left_executing():
             raise Violation("C06/left-marked-executing/after-failed-recalculation", {"after": strip(op)})
         self.compare_held(dict(op, op="set_value_failed_recalc"))
 
